@@ -172,6 +172,21 @@ def check_souden_wmwf(run, A):
                                                                                                               any(call_parts(y)[0] == B + 'get_optimal_reference_channel' for y in walk_terms(items[1]))):
                     sel_ok += 1
         want = sum(1 for x in alts if not is_call_to(strip_views(x), 'numpy.sum', 'numpy.einsum'))
+        # the other return paths apply a channel selection VECTOR e: filter @ e = sum over the column (last) axis of filter[..., d, D] * e[..., None, D]
+        for x in alts:
+            x = strip_views(x)
+            if not is_call_to(x, 'numpy.sum', 'numpy.einsum'):
+                continue
+            from ..walk import last_axis_product_sum, newaxis_insertions
+            lp = last_axis_product_sum(x)
+            okv = False
+            if lp is not None and not lp[2]:
+                for u, v in ((lp[0], lp[1]), (lp[1], lp[0])):
+                    ins = newaxis_insertions(v)
+                    if ins is not None and ins[1] == [-2] and derives(ins[0], 'channel_selection_vector') and any(y is t for y in walk_terms(u)):
+                        okv = True
+            run.check(okv, 'R-ROLE', f'{name}: a channel selection vector is applied to the COLUMN index of the filter matrix', fn.loc(x.node), '',
+                      'the selection-vector path is not sum(filter * e[..., None, :], axis=-1) (filter @ e)', construct=f'R-ROLE::{q}::selection-vector')
         run.check(sel_ok >= 1 and sel_ok == want, 'R-ROLE', f'{name}: beamformer is the reference COLUMN of the matrix', fn.loc(), '',
                   f'{sel_ok} of {want} return paths select `[..., {ref_param}]` (last axis = column)', construct=f'R-ROLE::{q}::column-selection')
         if name == 'get_mvdr_vector_souden':
